@@ -640,7 +640,7 @@ def _put_one_ImportFrom_level(
         start_ln = ln
         start_col = col
 
-        while dot := next_find(lines, ln, col, end_ln, end_col, '.'):
+        while child and (dot := next_find(lines, ln, col, end_ln, end_col, '.')):  # only the level dots, the module name can have dots as well
             ln, col = dot
             col += 1
             child -= 1
